@@ -21,17 +21,35 @@ class RecordingExecutor(SemantivaExecutor):
         w.cur_node += 1
         idx = w.cur_node
         w.log("exec.begin", w.cur_run, idx)
-        entry = {"run": w.cur_run, "node": idx, "status": "started"}
+        entry = {"run": w.cur_run, "node": idx, "status": "started", "t_begin": w.clock.wall}
         w.exec_log.append(entry)
         w.fire("executor_pre")
+        ctx_obj = w.cur_ctx_obj if w.remote_exec else None
+        pre_remote = _world.copy.deepcopy(ctx_obj.to_dict()) if ctx_obj is not None else None
         try:
             result = fn(*args, **kwargs)
         except BaseException as exc:
             entry["status"] = "raised"
             entry["exc_type"] = type(exc).__name__
+            entry["exc_obj"] = exc
+            entry["t_end"] = w.clock.wall
             w.log("exec.raise", w.cur_run, idx, type(exc).__name__)
             raise
         entry["status"] = "returned"
+        entry["t_end"] = w.clock.wall
+        if ctx_obj is not None:
+            # Emulate an out-of-process executor (a legal SemantivaExecutor): the caller gets a NEW Payload whose context
+            # is a different object, and the context object it submitted is left exactly as it was.
+            from semantiva.context_processors import ContextType
+            from semantiva.pipeline import Payload
+            new_ctx = ContextType(_world.copy.deepcopy(result.context.to_dict()))
+            result = Payload(result.data, new_ctx)
+            for k in list(ctx_obj.keys()):
+                ctx_obj.delete_value(k)
+            for k, v in pre_remote.items():
+                ctx_obj.set_value(k, v)
+            w.cur_ctx_obj = new_ctx
+            w.probe("remote_executor_node")
         try:
             entry["post_ctx"] = _world.ctx_snapshot(result.context)
             entry["out_type"] = type(result.data).__name__
@@ -70,6 +88,7 @@ def _make_orchestrator_class():
             if w is not None:
                 w.begin_run()
                 payload = kwargs.get("payload", args[1] if len(args) > 1 else None)
+                w.cur_ctx_obj = getattr(payload, "context", None)
                 try:
                     w.run_inputs.append({"run": w.cur_run, "context": _world.ctx_snapshot(payload.context),
                                          "data": _world._data_repr(payload.data)})
